@@ -2,9 +2,14 @@
 
 Proof: lean/PGA/Props/C08.lean (models PGA/Model/Query.lean of pgradd/RINGParser/MolQueryRead.py and
 PGA/Model/Match.lean of pgradd/RDkitWrapper/MolQuery.py; denotation PGA/Spec/Embeds.lean).
-Tie: `Read(text).GetQueryMatches(mol)` (sorted) against the model driver fed with the implementation's own parse
-tree (harness/lib_ast.py) and the graph of `Chem.AddHs(mol)` (harness/lib_mol.py); the operator / bond-word /
-element tables through the translator (harness/gen/molquery.py).
+Tie: `Read(text).GetQueryMatches(mol)` (sorted) against the model driver along TWO paths, on every fragment: (a) the *text*
+path — text -> C09 parser model on the regenerated grammar (PGA/Model/RingParse.lean) -> bridge (PGA/Model/RingAstBridge.lean)
+-> reader model -> matcher model, which does not involve the implementation's parser at all; (b) the *tree* path — the
+implementation's own parse tree (harness/lib_ast.py) fed to the reader model.  The driver compares the two trees and the two
+queries structurally; both must agree with the implementation.  Extra random layouts of every random fragment go through
+the model's and the implementation's parser (tree and query must not depend on the layout).  The graph is that of
+`Chem.AddHs(mol)` (harness/lib_mol.py); the operator / bond-word / element tables and the grammar come through the
+translator (harness/gen/molquery.py, harness/gen/ring_grammar.py).
 Property oracle: implementation vs `lib_embeds.embeddings` (direct enumeration of the denotation, written from the
 property text on the generator's structured fragment).  Assumption check A-cand: RDKit's candidate list vs the
 model's enumerator on every case.
@@ -13,13 +18,16 @@ import os, json, io, contextlib, collections, base64
 from . import common
 from . import lib_mol, lib_ast, lib_ringgen_c08 as RG, lib_embeds as EM, lib_molgen_c08 as MG
 
-PROPS = ['PGA.Props.C08', 'PGA.Props.C08Cap']
-GEN = ['Chars', 'MolQuery']
+PROPS = ['PGA.Props.C08', 'PGA.Props.C08Cap', 'PGA.Props.C08Text']
+GEN = ['Chars', 'MolQuery', 'RingChars', 'RingGrammar']
 OBLIGATIONS = ['PGA.C08.' + t for t in [
     'C08_tab_ops', 'C08_tab_bondwords', 'C08_tab_cn', 'C08_words_as_reference',
     'C08_matches_iff_partial', 'C08_fragment_matches_iff_partial', 'C08_matches_nodup', 'C08_matches_iff_full_fails',
     'C08_cap_inactive', 'C08_capped_iff_partial', 'C08_truncated_sound', 'C08_capped_iff_full_fails',
-    'C08_read_wf', 'C08_read_only_ring_errors', 'C08_alpha_read', 'C08_alpha_read_full_holds', 'C08_alpha_matches', 'C08_labels_irrelevant']]
+    'C08_read_wf', 'C08_read_only_ring_errors', 'C08_alpha_read', 'C08_alpha_read_full_holds', 'C08_alpha_matches', 'C08_labels_irrelevant',
+    # from the text on (parser model of C09 + bridge): PGA/Props/C08Text.lean
+    'C08_bridge_shape', 'C08_tab_rule_names', 'C08_text_never_aborts', 'C08_text_syntax_inside', 'C08_text_query_consumed',
+    'C08_text_read_wf', 'C08_text_matches_iff_partial', 'C08_matchText_sound_complete_partial', 'C08_same_tree_same_matches']]
 RULE = ('cases = (fragment, molecule) pairs. Fragments: bounded-exhaustive one- and two-atom fragments (every symbol '
         'class x suffix, x prefix, every legal molecule-prefix combination, every constraint form x negation x operator '
         'x number, every bond word) plus random grammar-directed fragments of 1..8 atoms with random layout and label '
@@ -39,7 +47,9 @@ ASSUMPTIONS = [
     'double bond (pinned by the test-suite), positive/negative = net charge of exactly +1/-1, radical suffixes leave the charge free',
 ]
 TRUSTED = ['modelled, not verified: MolQueryReader (MolQueryRead.py), MolQuery.GetQueryMatches and the constraint classes (MolQuery.py)',
-           'the parser (Parser.py / Grammar.py) is not part of this model: the tree comes from the implementation\'s own parser (C09 models it)',
+           'the parser (Parser.py / Grammar.py) is modelled by C09 (PGA/Model/RingParse.lean over the regenerated grammar table) and joined to the '
+           'reader model by PGA/Model/RingAstBridge.lean; every case is run from the text through that model as well as from the '
+           'implementation\'s own tree, so the implementation\'s parser is not trusted by this tie',
            'harness/lib_mol.py (graph extraction), harness/lib_ast.py (tree serialisation), harness/lib_embeds.py (oracle)']
 TECHNIQUE = 'Lean 4 proof over hand-written model + correspondence check + table translator'
 LEVEL_TEXT = ('Lean 4 theorems for every query (any number of atoms, bonds, constraints), every well-formed molecule graph and every '
@@ -50,8 +60,9 @@ LEVEL_TEXT = ('Lean 4 theorems for every query (any number of atoms, bonds, cons
               'on generated fragment x molecule pairs. A proof is the right level: the quantifier is over all fragments and molecules.')
 LEVEL_NOTE = ('Partial: T1 is proved under the guard "no * suffix" (finding FM1: the reader drops what * asks for; the full statement is '
               'kept and refuted in Lean) and the cap of 10 000 candidates is an explicit hypothesis (F30). Trusted: Lean kernel; RDKit as '
-              'graph provider and candidate enumerator (assumptions A-graph, A-cand, re-validated on every case); the parser (tree '
-              'taken from the real parser); the hand-written reference tables in PGA/Spec/Embeds.lean.')
+              'graph provider and candidate enumerator (assumptions A-graph, A-cand, re-validated on every case); the hand-written reference '
+              'tables in PGA/Spec/Embeds.lean. Layout independence (filler between tokens does not change the tree) is stated '
+              '(C08_layout_irrelevant_full) but not proved: it is exercised by the text path on random layouts.')
 
 EXC = None
 
@@ -406,14 +417,31 @@ def check_pair(ctx, fc, ent, requests, selfcheck=True):
     return ok
 
 
+def cps(text):
+    return [ord(c) for c in text]
+
+
+def impl_syntax_pos(text):
+    from pgradd.RINGParser import Parser
+    from pgradd.Error import RINGSyntaxError
+    try:
+        Parser.parse(text)
+    except RINGSyntaxError as e:
+        return [e.lineno, e.colno]
+    except Exception:
+        return None
+    return None
+
+
 def run_model(ctx, requests, fcs):
-    """the tie: one driver batch per chunk of fragments"""
+    """the tie: one driver batch per chunk of fragments; every fragment travels as its text (parser model + bridge) and, when the
+    implementation's parser produced one, as the implementation's tree"""
     if not ctx.driver_ok:
         return
     by_frag = collections.OrderedDict()
     for r in requests:
         by_frag.setdefault(id(r[0]), []).append(r)
-    frs = [f for f in fcs if f.ast is not None]
+    frs = list(fcs)
     acand_bad = 0
     ncmp = 0
     for c0 in range(0, len(frs), 60):
@@ -426,25 +454,57 @@ def run_model(ctx, requests, fcs):
                     midx[k] = len(mols)
                     mols.append(ent['g'])
                 pairs.append([ai, midx[k]])
-                meta.append((fc, ent, impl, raw))
-        rep = ctx.model([{'op': 'c08.batch', 'asts': [fc.ast for fc in chunk], 'mols': mols, 'pairs': pairs}])[0]
+                meta.append((ai, fc, ent, impl, raw))
+        rep = ctx.model([{'op': 'c08.batch', 'asts': [fc.ast for fc in chunk], 'texts': [cps(fc.text) for fc in chunk],
+                          'mols': mols, 'pairs': pairs}])[0]
         if not all(rep['wf']):
             raise common.MachineryError('a generated molecule graph is not well-formed for the model')
-        for fc, rs in zip(chunk, rep['reads']):
-            ctx.count('corr_c08.read')
+        for fc, rs, ts, same, tree in zip(chunk, rep['reads'], rep['treads'], rep['tsame'], rep['ttree']):
+            # --- tree path (the implementation's own tree through the reader model)
+            impl_s = impl_summary(fc.q) if fc.read == 'ok' else None
+            icls = 'internal' if fc.read.startswith('internal:') else fc.read
+            if rs is not None:
+                ctx.count('corr_c08.read')
+                if fc.read == 'ok':
+                    if 'err' in rs or any(rs.get(k) != impl_s[k] for k in impl_s):
+                        ctx.disagree('corr:c08.read', {'text': fc.text}, impl_s, rs)
+                else:
+                    mcls = rs.get('err')
+                    if mcls != icls and not (mcls is not None and fc.lenient):
+                        ctx.disagree('corr:c08.read', {'text': fc.text}, fc.read, rs)
+            # --- text path (parser model -> bridge -> reader model), against the implementation
+            ctx.count('corr_c08.read_text')
+            ctx.count('text_read_' + (ts.get('err') or 'ok'))
             if fc.read == 'ok':
-                impl_s = impl_summary(fc.q)
-                if 'err' in rs or any(rs.get(k) != impl_s[k] for k in impl_s):
-                    ctx.disagree('corr:c08.read', {'text': fc.text}, impl_s, rs)
+                if 'err' in ts or any(ts.get(k) != impl_s[k] for k in impl_s):
+                    ctx.disagree('corr:c08.read_text', {'text': fc.text}, impl_s, ts)
             else:
-                mcls = rs.get('err')
-                icls = 'internal' if fc.read.startswith('internal:') else fc.read
-                if mcls != icls and not (mcls is not None and fc.lenient):
-                    ctx.disagree('corr:c08.read', {'text': fc.text}, fc.read, rs)
-        for (fc, ent, impl, raw), r in zip(meta, rep['res']):
+                if ts.get('err') != icls:
+                    ctx.disagree('corr:c08.read_text', {'text': fc.text}, fc.read, ts)
+                elif icls == 'syntax' and [ts.get('line'), ts.get('col')] != impl_syntax_pos(fc.text):
+                    ctx.disagree('corr:c08.read_text', {'text': fc.text}, {'syntax': impl_syntax_pos(fc.text)}, ts)
+            # --- the two paths against each other: same tree (parser model + bridge = implementation's parser), same query
+            if fc.ast is not None:
+                ctx.count('corr_c08.text_tree')
+                if not tree:
+                    ctx.disagree('corr:c08.text_tree', {'text': fc.text}, {'impl_tree': fc.ast}, {'model_text_path': ts})
+                elif not same:
+                    ctx.disagree('corr:c08.read_text', {'text': fc.text, 'note': 'same tree, different query: driver inconsistency'}, rs, ts)
+        for (ai, fc, ent, impl, raw), r in zip(meta, rep['res']):
+            inp = {'text': fc.text, 'molecule': ent['name'], 'graph': ent['g']}
+            # text path: either the query is structurally the one of the tree path (then `m` is its result too) or `tm`/`terr`
+            ctx.count('corr_c08.match_text')
+            if 'terr' in r:
+                ctx.disagree('corr:c08.match_text', inp, impl, r['terr'])
+            elif 'tm' in r:
+                if [tuple(t) for t in r['tm']] != impl:
+                    ctx.disagree('corr:c08.match_text', inp, impl, r['tm'][:50])
+            elif not rep['tsame'][ai]:
+                raise common.MachineryError('driver reply lacks the text-path result of a pair')
+            if fc.ast is None:
+                continue
             ctx.count('corr_c08.match')
             ncmp += 1
-            inp = {'text': fc.text, 'molecule': ent['name'], 'graph': ent['g']}
             if 'err' in r:
                 ctx.disagree('corr:c08.match', inp, impl, r)
                 continue
@@ -460,6 +520,33 @@ def run_model(ctx, requests, fcs):
                                        'detail': '%s; RDKit candidate list = model enumerator on %d cases, %d differences' % (prev['detail'], ncmp, acand_bad)}
 
 
+def run_layouts(ctx, groups):
+    """layout independence on both parsers: every text of a group is another random layout of one fragment; the model (parser
+    model + bridge + reader) must give the first text's tree and query for each, the implementation's parser the first text's
+    tree, and the model's reading must be the implementation's"""
+    if not ctx.driver_ok or not groups:
+        return
+    reqs = [{'op': 'c08.layouts', 'texts': [cps(t) for t in g['texts']]} for g in groups]
+    for g, rep in zip(groups, ctx.model(reqs)):
+        trees = []
+        for t in g['texts']:
+            try:
+                trees.append(lib_ast.parse_to_json(t))
+            except Exception as e:
+                trees.append(('exc', common.exc_class(e, exc_table())))
+        for k, t in enumerate(g['texts']):
+            ctx.count('layout_texts')
+            ctx.count('corr_c08.layouts')
+            if trees[k] != trees[0]:
+                ctx.violation('the layout of a fragment changes its parse tree', {'text': g['texts'][0], 'other': t, 'fragment': g['frag']},
+                              expected='the same tree', observed=trees[k] if isinstance(trees[k], tuple) else 'another tree')
+            if not rep['same'][k]:
+                ctx.disagree('corr:c08.layouts', {'text': g['texts'][0], 'other': t}, 'same tree and query for every layout (parser model)', rep['reads'][k])
+            ok_impl = not isinstance(trees[k], tuple)
+            if ok_impl != (rep['reads'][k].get('err') not in ('syntax', 'stuck', 'missingRule', 'hang', 'parserInternal')):
+                ctx.disagree('corr:c08.layouts', {'text': t}, trees[k] if not ok_impl else 'parsed', rep['reads'][k])
+
+
 # ---------------------------------------------------------------------------------------------- run
 def make_case(ctx, frag, origin, layout=True):
     text = RG.render(frag, ctx.rng if layout else None)
@@ -469,6 +556,8 @@ def make_case(ctx, frag, origin, layout=True):
         fc.ast = lib_ast.parse_to_json(text)
     except Exception:
         fc.ast = None
+    if fc.ast is None:
+        ctx.count('fragments_without_impl_tree')
     ctx.count('fragments')
     ctx.count('fragments_' + origin)
     ctx.count('read_' + fc.read)
@@ -565,7 +654,7 @@ def run(ctx):
         raise common.MachineryError('assumption A-graph failed: %r' % (pool.bad_graph[:3],))
     # F22 (lower-case symbols) and FM2 (label `AtomLabel`) are repaired on the repository: both classes are generated
     # unconditionally and a recurrence is a violation
-    fcs, requests = [], []
+    fcs, requests, layout_groups = [], [], []
     # 1. bounded-exhaustive small fragments x sampled molecules
     small = RG.small_fragments(ctx.thorough())
     per_small = ctx.n(10, 60)
@@ -575,6 +664,7 @@ def run(ctx):
             break
         fc = make_case(ctx, frag, 'small', layout=False)
         fcs.append(fc)
+        layout_groups.append({'frag': frag, 'texts': [fc.text, RG.render(frag, rng)]})
         if not check_read(ctx, fc) or fc.read != 'ok':
             continue
         run_fragment(ctx, pool, fc, per_small, requests)
@@ -597,11 +687,15 @@ def run(ctx):
         if not check_read(ctx, fc) or fc.read != 'ok':
             continue
         ents, res = run_fragment(ctx, pool, fc, per_rand, requests, extra_tries=6)
-        # 3. layout / label independence on the implementation itself (relational clause of the property)
+        # further random layouts of the same fragment: parse tree and query must not depend on them (both parsers)
+        layout_groups.append({'frag': frag, 'texts': [fc.text] + [RG.render(frag, rng) for _ in range(ctx.n(2, 4))]})
+        # 3. layout / label independence on the implementation itself (relational clause of the property); the renamed and
+        # re-laid-out fragment is also a case of its own (oracle, tree path and text path of the model)
         if i % 4 == 0:
             g2 = RG.relabel(frag, rng)
-            t2 = RG.render(g2, rng)
-            q2, r2 = impl_read(t2)
+            fc2 = make_case(ctx, g2, 'relabelled')
+            fcs.append(fc2)
+            t2, q2, r2 = fc2.text, fc2.q, fc2.read
             ctx.count('relabel_relayout_checks')
             if r2 != 'ok':
                 ctx.violation('the same fragment with other label names / layout is not read', {'text': fc.text, 'other': t2}, 'ok', r2)
@@ -611,6 +705,7 @@ def run(ctx):
                     if a != b:
                         ctx.violation('label names or layout change the matches', {'text': fc.text, 'other': t2, 'molecule': ent['name']},
                                       expected=a[:50] if isinstance(a, list) else a, observed=b[:50] if isinstance(b, list) else b)
+                    check_pair(ctx, fc2, ent, requests, selfcheck=False)
     # all random molecules exhaustively against a few central fragments (every small molecule is used at least once)
     core = [make_case(ctx, f, 'core', layout=False) for f in core_fragments()]
     fcs += core
@@ -618,7 +713,7 @@ def run(ctx):
         if ctx.time_left() < 100:
             ctx.count('stopped_early_time')
             break
-        for fc in rng.sample(core, ctx.n(3, 8)):
+        for fc in rng.sample(core, min(len(core), ctx.n(3, 8))):
             if fc.read == 'ok':
                 check_pair(ctx, fc, ent, requests, selfcheck=False)
     # many-candidate cases: unconstrained chains and stars on the largest molecules (hundreds to thousands of candidates)
@@ -628,10 +723,11 @@ def run(ctx):
     for ent in big:
         if ctx.time_left() < 100:
             break
-        for fc in rng.sample(dense, ctx.n(2, 5)):
+        for fc in rng.sample(dense, min(len(dense), ctx.n(2, 5))):
             ctx.count('dense_pairs')
             check_pair(ctx, fc, ent, requests, selfcheck=False)
     run_model(ctx, requests, fcs)
+    run_layouts(ctx, layout_groups)
     reach_floor(ctx)
 
 
@@ -682,6 +778,8 @@ def reach_floor(ctx):
     if ctx.stats.get('stopped_early_time') or ctx.violations or ctx.disagreements or ctx.broken:
         return
     missing = [k for k in REACH if not ctx.stats.get(k)]
+    if ctx.driver_ok and ctx.stats.get('text_read_ok', 0) < 1000:
+        missing.append('text_read_ok>=1000 (texts accepted by the parser model and read by the reader model)')
     ctx.extra.setdefault('coverage', {})['reach_missing'] = missing
     if missing and not ctx.searching:
         raise common.MachineryError('generator reach below the floor: no pair with embeddings for %s' % missing[:10])
